@@ -33,6 +33,11 @@ class StopAtJoin(Exception):
     pass
 
 
+class NestedReturn(Exception):
+    def __init__(self, value):
+        self.value = value
+
+
 class _Undef:
     def __repr__(self):
         return 'UNDEF'
@@ -286,6 +291,8 @@ class State:
         self.access_hook = None
         self.stop_at = None
         self.pending_phi = None
+        self.reuse_freed = False
+        self.nested = []      # frame depths at which nested (re-entrant) calls made by environment stubs return
         self.divs = []        # recorded (pc, denominator, where) of floating divisions by symbolic values
 
     def clone(self):
@@ -304,6 +311,7 @@ class State:
         s.notes = list(self.notes)
         s.exc_msgs = dict(self.exc_msgs)
         s.divs = list(self.divs)
+        s.nested = list(self.nested)
         if isinstance(self.align_policy, list):
             s.align_policy = list(self.align_policy)
         return s
@@ -340,6 +348,17 @@ class State:
 
     def heap_alloc(self, size, kind, residue=0):
         """residue: address mod 32 (0 or 16)"""
+        if self.reuse_freed:
+            # model an allocator that hands a just-released block of the same size out again (address reuse)
+            for ev in reversed(self.ledger):
+                if ev[0] == 'free' and ev[1] == kind and ev[3] == size:
+                    o = self.find(ev[2])
+                    if o is not None and not o.live and o.base == ev[2] and (o.base % 32) == residue:
+                        o.live = True
+                        o.cells = {}
+                        o.zero = False
+                        self.ledger.append(('alloc', kind, o.base, size))
+                        return o
         base = (self.next_heap + 31) // 32 * 32 + residue
         self.next_heap = base + size + 64
         o = self.add_obj(Obj(base, size, kind, 'heap#%d' % len(self.ledger)))
@@ -1172,6 +1191,33 @@ class Executor:
             c = c & 1
         self._enter(st, fr, ins.a if c else ins.b)
 
+    def call_nested(self, st, name, args):
+        """re-entrant call of an IR function from an environment stub (e.g. the ODE driver calling the RHS callback).
+        Runs to completion on the current path; forking inside is not supported (the caller keeps control flow concrete)."""
+        fn = self.mod.functions.get(name)
+        if fn is None or not fn.defined:
+            raise ExecError('call_nested: no definition of %s' % name)
+        fn.parse_body()
+        nf = Frame(fn)
+        for (pt, pn), a in zip(fn.params, args):
+            nf.regs[pn] = a
+        st.nested.append(len(st.frames))
+        st.frames.append(nf)
+        ops = self._ops
+        try:
+            while True:
+                fr = st.frames[-1]
+                ins = fr.block[fr.idx]
+                st.steps += 1
+                r = ops[ins.op](st, fr, ins)
+                if r is not None:
+                    raise ExecError('path ended inside a nested call: %r' % (r,))
+        except NestedReturn as e:
+            st.nested.pop()
+            return e.value
+        except Fork:
+            raise ExecError('symbolic fork inside a nested call (%s)' % name)
+
     # ---- diamond merging -------------------------------------------------------------------
     def ipdom(self, fn):
         """immediate post-dominators of fn's blocks (dict label -> label or None)"""
@@ -1548,6 +1594,8 @@ class Executor:
         if ins.a is not None:
             v = self.val(st, fr, ins.ty, ins.a)
         self.pop_frame(st)
+        if st.nested and st.nested[-1] == len(st.frames):
+            raise NestedReturn(v)
         if not st.frames:
             st.retval = v
             return PathResult('ok', st, retval=v)
@@ -1591,6 +1639,8 @@ class Executor:
     def unwind(self, st):
         """an exception is in flight and the top frame's current instruction is the call that raised it"""
         while st.frames:
+            if st.nested and len(st.frames) <= st.nested[-1]:
+                raise PathError('exception-through-c', 'a C++ exception propagates out of a callback into the (C) GSL driver')
             fr = st.frames[-1]
             ins = fr.block[fr.idx]
             if ins.op == 'invoke':
